@@ -223,11 +223,31 @@ class Run:
 
     def step(self, k=1):
         with contextlib.redirect_stdout(self.out):
-            self.solver.DoGlobalIteration(k)
+            if self.line_guard:
+                self._guarded("DoGlobalIteration(%d)" % k, self.solver.DoGlobalIteration, k)
+            else:
+                self.solver.DoGlobalIteration(k)
 
     def solve(self):
         with contextlib.redirect_stdout(self.out):
+            if self.line_guard:
+                return self._guarded("Solve()", self.solver.Solve)
             return self.solver.Solve()
+
+    line_guard = False      # set on a Run to bound every solver call by a count of executed Python lines
+
+    def _guarded(self, what, fn, *args):
+        """Deterministic termination guard (no wall clock): a call that executes far more lines than any run
+        of its budget can need does not terminate."""
+        from vlib.steps import guarded_call, line_budget
+        from vlib.runner import fail
+        budget = line_budget(max(self.sp.itersLimit if what == "Solve()" else 0, len(self.problem.log) +
+                                 (args[0] if args else 0)), len(self.problem.log))
+        res, hit = guarded_call(budget, fn, *args)
+        if hit:
+            fail("%s did not return within %d executed Python lines after %d completed evaluations "
+                 "(it does not terminate)" % (what, budget, len(self.problem.log)))
+        return res
 
     def results(self):
         return self.solver.GetResults()
